@@ -2,7 +2,7 @@
 //
 // Protocol: one case per stdin line, one result line per case on stdout.
 //
-//   <id> <basis> <ytype> <run> <ckm> <mhsm> p1 .. p9 zu zd zl Du Dd Dl Pu Pd Pl <ops>
+//   <id> <basis> <ytype> <run> <ckm> <mhsm> <sm> p1 .. p9 zu zd zl Du Dd Dl Pu Pd Pl <ops>
 //
 //   basis  M : p = mh mH mA mHp sin(beta-alpha) lambda6 lambda7 tan(beta) m12^2
 //          G : p = lambda1 .. lambda7 tan(beta) m12^2
@@ -11,11 +11,13 @@
 //   ckm    0 unit | 1 SM default | 2 complex Wolfenstein(0.2257,0.814,0.135,0.349)
 //   mhsm   '-' (SM default) | 'auto' (construct once, SM::set_mh(model.get_Mhh(0)),
 //          construct again) | hex float
+//   sm     '-' (gm2calc::SM defaults) | comma separated key=hexfloat overrides of the SM input:
+//          mw mz aem (alpha_em(MZ)) ae0 (alpha_em(0)) as (alpha_s(MZ)) mu0 mu1 mu2 md0 md1 md2 ml0 ml1 ml2
 //   matrices: '0' or nine comma separated hex floats (row major)
 //   ops    subset of S (spectrum/getters), A (a_mu), T (individual terms of a_mu,
 //          used only as the scale "sum of |terms|" of tolerances), Y (12 Yukawa getters)
 //
-//   result: R <id> OK [S n v..] [A 4 v..] [T 17 v..] [Y 216 v..]
+//   result: R <id> OK [S 95 v..] [A 4 v..] [T 17 v..] [Y 216 v..]
 //           R <id> EXC <class> <what>
 //   all doubles as C99 hex floats.  Last line: END <ncases> <nok> <nexc>.
 //   'hello' prints the layout version.  Nothing is random; nothing is cached.
@@ -91,7 +93,7 @@ std::string clean(const char* s)
 }
 
 struct Case {
-   std::string id, ops, mhsm;
+   std::string id, ops, mhsm, smspec;
    char basis{'M'};
    int ytype{2}, run{1}, ckm{1};
    double p[9]{};
@@ -99,9 +101,28 @@ struct Case {
    M3 D[3], P[3];
 };
 
-SM make_sm(int ckm)
+SM make_sm(int ckm, const std::string& spec)
 {
    SM sm;
+   if (spec != "-") {
+      std::stringstream ss(spec);
+      std::string kv;
+      while (std::getline(ss, kv, ',')) {
+         const auto eq = kv.find('=');
+         if (eq == std::string::npos) { throw Bad{"bad SM override '" + kv + "'"}; }
+         const std::string k = kv.substr(0, eq);
+         const double v = hx(kv.substr(eq + 1));
+         if (k == "mw") { sm.set_mw(v); }
+         else if (k == "mz") { sm.set_mz(v); }
+         else if (k == "aem") { sm.set_alpha_em_mz(v); }
+         else if (k == "ae0") { sm.set_alpha_em_0(v); }
+         else if (k == "as") { sm.set_alpha_s_mz(v); }
+         else if (k.size() == 3 && k[0] == 'm' && (k[1] == 'u' || k[1] == 'd' || k[1] == 'l') && k[2] >= '0' && k[2] <= '2') {
+            const int i = k[2] - '0';
+            if (k[1] == 'u') { sm.set_mu(i, v); } else if (k[1] == 'd') { sm.set_md(i, v); } else { sm.set_ml(i, v); }
+         } else { throw Bad{"unknown SM override key '" + k + "'"}; }
+      }
+   }
    if (ckm == 0) {
       sm.set_ckm(C3::Identity());
    } else if (ckm == 2) {
@@ -142,7 +163,7 @@ THDM build(const Case& c, const SM& sm)
 void block_S(std::string& o, const THDM& m)
 {
    const SM& sm = m.get_sm();
-   o += " S 92";
+   o += " S 95";
    out(o, m.get_Mhh(0)); out(o, m.get_Mhh(1));                 // 0,1
    out(o, m.get_MAh(0)); out(o, m.get_MAh(1));                 // 2,3
    out(o, m.get_MHm(0)); out(o, m.get_MHm(1));                 // 4,5
@@ -174,6 +195,8 @@ void block_S(std::string& o, const THDM& m)
    out(o, sm.get_v()); out(o, sm.get_mh());                    // 85,86
    out(o, m.get_zeta_u()); out(o, m.get_zeta_d()); out(o, m.get_zeta_l()); // 87..89
    out(o, m.get_MVG()); out(o, m.get_MVP());                   // 90,91
+   out(o, sm.get_alpha_em_mz()); out(o, sm.get_alpha_s_mz());  // 92,93
+   out(o, m.get_alpha_em());                                   // 94
 }
 
 void block_A(std::string& o, const THDM& m)
@@ -275,7 +298,7 @@ void block_Y(std::string& o, const THDM& m)
 
 void evaluate(const Case& c, std::string& o)
 {
-   SM sm = make_sm(c.ckm);
+   SM sm = make_sm(c.ckm, c.smspec);
    if (c.mhsm == "auto") {
       const THDM first = build(c, sm);
       sm.set_mh(first.get_Mhh(0));
@@ -305,14 +328,14 @@ int main()
    std::string o;
    while (std::getline(std::cin, line)) {
       if (line.empty()) { continue; }
-      if (line == "hello") { std::cout << "THDM-HARNESS 2 S92 A4 T17 Y216\n"; continue; }
+      if (line == "hello") { std::cout << "THDM-HARNESS 3 S95 A4 T17 Y216\n"; continue; }
       std::vector<std::string> tk;
       {
          std::stringstream ss(line);
          std::string t;
          while (ss >> t) { tk.push_back(t); }
       }
-      if (tk.size() != 6 + 9 + 3 + 6 + 1) {
+      if (tk.size() != 7 + 9 + 3 + 6 + 1) {
          std::cout << "ERR bad token count " << tk.size() << " in: " << line << '\n';
          return 3;
       }
@@ -327,11 +350,12 @@ int main()
          c.run = std::atoi(tk[3].c_str());
          c.ckm = std::atoi(tk[4].c_str());
          c.mhsm = tk[5];
-         for (int i = 0; i < 9; ++i) { c.p[i] = hx(tk[6 + i]); }
-         for (int i = 0; i < 3; ++i) { c.z[i] = hx(tk[15 + i]); }
-         for (int i = 0; i < 3; ++i) { c.D[i] = mat(tk[18 + i]); }
-         for (int i = 0; i < 3; ++i) { c.P[i] = mat(tk[21 + i]); }
-         c.ops = tk[24];
+         c.smspec = tk[6];
+         for (int i = 0; i < 9; ++i) { c.p[i] = hx(tk[7 + i]); }
+         for (int i = 0; i < 3; ++i) { c.z[i] = hx(tk[16 + i]); }
+         for (int i = 0; i < 3; ++i) { c.D[i] = mat(tk[19 + i]); }
+         for (int i = 0; i < 3; ++i) { c.P[i] = mat(tk[22 + i]); }
+         c.ops = tk[25];
       } catch (const Bad& b) {
          std::cout << "ERR " << b.what << " in: " << line << '\n';
          return 3;
